@@ -401,7 +401,8 @@ let monitor_mode cases_file obs_file =
              let vs = monitor_all !case_cfg (List.rev !case_script) h in
              List.iteri (fun k (hw, l) ->
                let buf = Buffer.create 128 in
-               Buffer.add_string buf (Printf.sprintf "M %s %d how=%s" !case_id k (how_str hw));
+               let wf = if k < Array.length reqs && url_wf (snd reqs.(k)).q_url then 1 else 0 in
+               Buffer.add_string buf (Printf.sprintf "M %s %d how=%s urlwf=%d" !case_id k (how_str hw) wf);
                List.iter (fun (n, v) -> Buffer.add_string buf (Printf.sprintf " %s=%s" (string_of_bytes n) (verdict_str v))) l;
                print_endline (Buffer.contents buf)) vs
            end
